@@ -418,6 +418,9 @@ type memSessions struct {
 	n       int
 	failNew bool
 	failGet bool
+	// staleGet: Get hands back the stored bytes together with an error (a session the store considers ended or
+	// revoked): an error from the session manager means there is no session, whatever else it returns
+	staleGet bool
 }
 
 func (m *memSessions) New(w http.ResponseWriter, r *http.Request, k string, v []byte) error {
@@ -443,12 +446,15 @@ func (m *memSessions) Get(r *http.Request, k string) ([]byte, error) {
 	if !ok {
 		return nil, errors.New("no such session")
 	}
+	if m.staleGet {
+		return v, errors.New("session has ended")
+	}
 	return v, nil
 }
 
 func sequences(c *engine.Ctx, wd *world, evals *int64) {
 	events := []string{"fresh", "fresh-user2", "replay", "replay-sname-case-flipped", "none", "garbage", "cookie", "cookie-of-first-session", "forged-cookie"}
-	managers := []string{"none", "memory", "failing-new", "failing-get"}
+	managers := []string{"none", "memory", "failing-new", "failing-get", "get-returns-ended-session-with-error"}
 	depth := 4
 	var rec func(seq []string)
 	run := func(seq []string, mgr string) {
@@ -456,7 +462,7 @@ func sequences(c *engine.Ctx, wd *world, evals *int64) {
 		vclock.Set(apworld.T0)
 		var sm *memSessions
 		if mgr != "none" {
-			sm = &memSessions{store: map[string][]byte{}, failNew: mgr == "failing-new", failGet: mgr == "failing-get"}
+			sm = &memSessions{store: map[string][]byte{}, failNew: mgr == "failing-new", failGet: mgr == "failing-get", staleGet: mgr == "get-returns-ended-session-with-error"}
 		}
 		var smi0 service.SessionMgr
 		if sm != nil {
@@ -529,7 +535,7 @@ func sequences(c *engine.Ctx, wd *world, evals *int64) {
 				c.Violate("sequences", "panic:sequence:"+ev, map[string]interface{}{"panic": o.Panic}, recd)
 				return
 			}
-			bySession := (ev == "cookie" || ev == "cookie-of-first-session") && established && sm != nil && !sm.failGet
+			bySession := (ev == "cookie" || ev == "cookie-of-first-session") && established && sm != nil && !sm.failGet && !sm.staleGet
 			wantInner := bySession || (legitHeader && !(sm != nil && sm.failNew))
 			switch {
 			case o.InnerRan && !wantInner:
